@@ -476,12 +476,9 @@ def r09k(F):
 	bumps = []
 	for bi, si, s in fu.stmts():
 		fl = place_fields(s[1])
-		if fl and fl[-1] == 'update_id' and len(fl) >= 2 and fl[-2] == 'update' and s[2][0] == 'bin' and s[2][1].startswith('Add'):
-			base = ex.of_place(s[1])
-			bumps.append((bi, base))
-		elif fl and fl[-1] == 'update_id' and s[2][0] == 'use':
-			e = ex.of_rvalue(s[2])
-			if e[0] == 'field' and e[2] == '0' and e[1][0] == 'bin' and e[1][1].startswith('Add') and 'blocked_monitor_updates' in expr_str(ex.of_place(s[1])):
+		if fl and fl[-1] == 'update_id' and len(fl) >= 2 and fl[-2] == 'update':
+			e = ex.of_rvalue(s[2])   # dev profile: `t = a +? 1; assert; x = t.0` folds to the same Add tree
+			if e[0] == 'bin' and e[1].startswith('Add') and linear(e)[1] == 1:
 				bumps.append((bi, ex.of_place(s[1])))
 	okb = False
 	for bi, base in bumps:
